@@ -41,9 +41,14 @@ func simParseAfter(ctx *Ctx, before []string, src string, strategy int) *parseOu
 	out := &parseOutcome{}
 	res := ctx.Sim(func(c *simrt.Config) {
 		c.Strategy = strategy
-		c.StepCap = 400000
+		// generous and proportional to the input: the scanner takes a dozen
+		// matcher attempts (each through a registry mutex) per token
+		c.StepCap = 400000 + 4000*len(src)
 	}, func() {
 		defer func() {
+			if !simrt.Active() {
+				return // the run is being torn down (step cap or deadlock), not a panic
+			}
 			out.MainDone = true
 			if out.Returned {
 				return
@@ -90,7 +95,7 @@ func simParsePair(ctx *Ctx, srcs [2]string, strategy int) ([2]*parseOutcome, *si
 	outs := [2]*parseOutcome{{}, {}}
 	res := ctx.Sim(func(c *simrt.Config) {
 		c.Strategy = strategy
-		c.StepCap = 400000
+		c.StepCap = 400000 + 4000*(len(srcs[0])+len(srcs[1]))
 	}, func() {
 		var wg simrt.WaitGroup
 		for i := 0; i < 2; i++ {
@@ -100,6 +105,9 @@ func simParsePair(ctx *Ctx, srcs [2]string, strategy int) ([2]*parseOutcome, *si
 				defer wg.Done()
 				out := outs[i]
 				defer func() {
+					if !simrt.Active() {
+						return
+					}
 					out.MainDone = true
 					if out.Returned {
 						return
